@@ -118,6 +118,9 @@ func (ob *Obligation) Solve(timeoutS int, keepScript bool) *SolveResult {
 		return &SolveResult{Status: "unsat", Solver: "simplifier"}
 	}
 	script := ob.Script(true)
+	if ob.Cover && timeoutS > 3 {
+		timeoutS = 3
+	}
 	fileMu.Lock()
 	fileSeq++
 	fn := filepath.Join(scratch(), fmt.Sprintf("q%d.smt2", fileSeq))
